@@ -2,7 +2,10 @@
 corrupting.
 
 Needs the guarded hook in /repo (BTREES_VERIF): an allocation-failure
-countdown consulted by BTree_Malloc / BTree_Realloc, armed through
+countdown consulted by BTree_Malloc / BTree_Realloc and by fault points at the
+places where the extension allocates Python objects itself (new leaf / tree
+nodes, result containers of set algebra and merges, state tuples, lazy
+sequences and iterators, result lists and tuples), armed through
 _XXBTree._verif_alloc_arm(n), observed through _verif_alloc_stats().
 C implementation only; all families, all kinds.
 
@@ -58,8 +61,12 @@ LEVEL_TEXT = ("Seeded shapes (all families, 4 kinds, C implementation) x "
               "ASan+UBSan build.")
 LEVEL = {"quick": "fault_enumeration", "thorough": "fault_enumeration"}
 ASSUMPTIONS = ["allocation failures are injected at BTree_Malloc / "
-               "BTree_Realloc only (the wrappers the property anchors), not "
-               "at CPython's object allocator"]
+               "BTree_Realloc (the wrappers the property anchors) and at the "
+               "fault points of the guarded hook where the extension itself "
+               "allocates Python objects (new nodes, result containers, state "
+               "tuples, lazy sequences, result lists); failures of CPython's "
+               "allocator inside interpreter API calls (PyArg_*, attribute "
+               "lookups, ...) are not injected by the registered check"]
 
 
 def plan(rng, tier):
@@ -116,25 +123,27 @@ def plan(rng, tier):
     else:
         op = ["setstate", rng.choice(["fresh", "live", "live"])]
     mode = "hook"
-    if rng.random() < 0.4:
-        # the interpreter's allocator fails instead (object, tuple, list,
-        # iterator ... allocations inside the operation): more operation
-        # kinds allocate
+    r2 = rng.random()
+    # operations whose only allocations are Python objects the extension
+    # creates itself (state tuples, lazy sequences, result lists, result
+    # tuples): the hook has fault points there too
+    if r2 < 0.06:
+        op = ["getstate"]
+    elif r2 < 0.16:
+        from . import ranges
+        meths = ranges.MAP_METHS if mapping else ranges.SET_METHS
+        op = ranges._range_op(rng, g, meths)
+    elif r2 < 0.24 and g.model.d:
+        k = rng.choice(g.model.skeys())
+        op = rng.choice([["pop", k], ["popitem"], ["del", k],
+                         ["items"], ["values"], ["keys"], ["iter"]]
+                        if mapping else
+                        [["remove", k], ["spop"], ["discard", k],
+                         ["keys"], ["iter"]])
+    if tier == "survey" and rng.random() < 0.4:
+        # exploratory only (tools/survey.py --tier survey), not part of the
+        # registered check: CPython's own allocator fails (see DESIGN 10)
         mode = "pyalloc"
-        r2 = rng.random()
-        if r2 < 0.10:
-            op = ["getstate"]
-        elif r2 < 0.25:
-            from . import ranges
-            meths = ranges.MAP_METHS if mapping else ranges.SET_METHS
-            op = ranges._range_op(rng, g, meths)
-        elif r2 < 0.40 and g.model.d:
-            k = rng.choice(g.model.skeys())
-            op = rng.choice([["pop", k], ["popitem"], ["del", k],
-                             ["items"], ["values"], ["getitem", k]]
-                            if mapping else
-                            [["remove", k], ["spop"], ["discard", k],
-                             ["keys"], ["iter"]])
     follow = []
     # the follow-up grows the very region that failed
     if op[0] in ("set", "setdefault", "insert", "add", "sinsert"):
